@@ -6,6 +6,8 @@ import (
 	"fmt"
 	"sort"
 	"strings"
+
+	"golang.org/x/tools/go/ssa"
 )
 
 type abortKind int
@@ -67,10 +69,12 @@ type Path struct {
 	discharged  int
 	unknowns    int
 	steps       int64
+	initSteps   int64
 	maxSteps    int64
 	env         map[string]string
 	notes       map[string]int // intrinsics / overrides hit
 	funcs       map[string]int // functions interpreted (name -> instr count)
+	funcsSeen   map[*ssa.Function]struct{}
 	nondetSeq   int
 	mapOrder    bool // explore map iteration orders
 	depth       int
